@@ -23,6 +23,7 @@ TRUSTED = ["ghost allocation ledger of LhasaV.Model.Reader (header objects with 
            "tied to the C by comparing the number of live heap blocks after lha_reader_free + lha_input_stream_free on every history",
            "harness/ops_reader.c: link-time --wrap of malloc/calloc/realloc/free/strdup counts live blocks and injects failures"]
 ASSUMPTIONS = ["at most one decode operation per member and one extract per entry (the property's quantifier)",
+               "file handles: the one handle the library opens itself (the output file, lha_arch_fopen) is a cookie stream of the harness whose close is observed; the input FILE is the caller's",
                "file handles: the harness supplies the FILE / callbacks, the library opens none itself in these runs"]
 RULE = ("legal call histories (next / read k / check / extract with scripted file-system outcome) over corpus, mutated and structured "
         "archives incl. nested directories and dangerous symlinks, cut at every prefix (the reader is abandoned there), four stream kinds, "
@@ -40,6 +41,8 @@ def budget(tier):
 def judge(c_out):
     if c_out.startswith(("CRASH", "TIMEOUT")) or "OVERREAD" in c_out:
         return "memory error / abnormal termination: " + c_out[:200]
+    if "HANDLE-LEAK" in c_out:
+        return "a file handle the library opened (the output file of an extraction) was still open when lha_reader_extract returned"
     cnt = A.rdr_counters(c_out)
     if cnt.get("live", 0) != 0:
         return "leak: %d heap block(s) still allocated after the reader and its stream were freed" % cnt["live"]
